@@ -26,7 +26,8 @@ MANIFEST = dict(
          'that label layouts equal HmLabel, that the emitted tree is the canonical Patricia tree for every key set of widths 1..3(4) and structured larger sets, and '
          'that both parsers decode every valid (also non-canonical, also pruned) encoding of those trees with extras in TON order.'
          ' Maps serialised one after the other in one process (the same label string under different remaining key lengths) are each canonical.'
-         ' Bits that are not a label (a unary length the cell ends inside of, a cut length field, n above the remaining key, an empty cell) are refused by the label reader.',
+         ' Bits that are not a label (a unary length the cell ends inside of, a cut length field, n above the remaining key, an empty cell) are refused by the label reader.'
+         ' The empty label written as hml_same with n = 0 is read as the empty label.',
     note='trusted: interpreter, sa/dictspec.py (transcription of dict.cpp / hashmap.tlb). Not decided: all key sets of all widths (finite families only).',
     design_ref='DESIGN.md section 4 C10')
 
